@@ -822,6 +822,20 @@ def concrete(t, env, width=32):
                 return (r % M, not 0 <= r < M)
             if nm in ("min", "max"):
                 return min(x, y) if nm == "min" else max(x, y)
+            if nm in ("div_ceil", "div_euclid", "rem_euclid", "checked_div", "next_multiple_of"):
+                if y == 0:
+                    if nm == "checked_div":
+                        return ("none",)
+                    raise Panics("%s by zero" % nm)
+                if nm == "next_multiple_of":
+                    r = -(-x // y) * y
+                    if r >= M:
+                        raise Panics("next_multiple_of overflows u%d" % w)
+                    return r
+                r = {"div_ceil": -(-x // y), "div_euclid": x // y, "rem_euclid": x % y, "checked_div": x // y}[nm]
+                return ("some", r) if nm == "checked_div" else r
+            if nm == "abs_diff":
+                return abs(x - y)
         if len(a) == 1 and isinstance(a[0], (int, bool)) and nm in ("from", "into", "to_owned", "clone"):
             return a[0]
         if len(a) == 1 and nm in ("unwrap", "expect") and isinstance(a[0], tuple) and a[0] and a[0][0] == "some":
